@@ -452,6 +452,8 @@ def make_frame(rec, family):
     if rec['kind'] == 'valid':
         name = rec['cls'] if rec['cls'] in POOL[family] else POOL[family][0]
         msg = build_message(family, name, int(rec.get('var', 0)))
+        if rec.get('big') and hasattr(msg, 'query'):
+            msg.query = 'q' * int(rec['big'])       # a search request large enough to fill a send path
         frame = msg.serialize()
         if not _roundtrips(family, msg):
             return frame, None, 'm:unroundtrippable'
@@ -592,8 +594,16 @@ def generate(rng, index, tier):
             badfirst.append({'port': rng.choice(('clear', 'obf')), 'what': rng.choice(BADFIRST),
                              'at': round(rng.choice([0.0, 0.0, 0.5, 2.0]) + rng.random() * 0.1, 4),
                              'rs': rng.getrandbits(16), 'key': '%08x' % rng.getrandbits(32)})
-    return {'seed': rng.getrandbits(32), 'net': net, 'regimes': regimes, 'dist_obf': rng.random() < 0.5,
+    plan = {'seed': rng.getrandbits(32), 'net': net, 'regimes': regimes, 'dist_obf': rng.random() < 0.5,
             'frames': frames, 'teardown': teardown, 'badfirst': badfirst, 'slowfirst': slowfirst}
+    if rng.random() < 0.1 and 'ServerSearchRequest.Response' in POOL['server']:
+        # the distributed child never reads and the server sends search requests large enough to fill the send path
+        plan['child_stall'] = True
+        for i in range(rng.randint(1, 4)):
+            frames.insert(rng.randint(0, len(frames)), {
+                'src': 'server', 'kind': 'valid', 'cls': 'ServerSearchRequest.Response', 'var': rng.randint(0, 200),
+                'gap': rng.choice(GAPS), 'key': '%08x' % rng.getrandbits(32), 'big': rng.choice([30000, 60000])})
+    return plan
 
 
 _BASE_NET = {'base_ms': 5, 'jitter_ms': 0, 'segmentation': 'whole', 'coalesce': True, 'byte_mode_max': 8192, 'links': {}}
@@ -686,6 +696,21 @@ def corpus(tier):
             lst = [{'src': l, 'kind': 'valid', 'cls': _A[FAMILY[l]][0], 'var': 1, 'gap': 0.3, 'key': key}
                    for l in LINKS for _ in range(2)]
             out.append(_plan(lst, badfirst=[{'port': port, 'what': what, 'at': 0.2, 'rs': 5, 'key': key}]))
+    # 9. a distributed child that never reads, search requests from the server large enough to fill the send path towards
+    #    it, then the child's connection ends (truncated frame + EOF / RST): the server link keeps being read
+    big = 'ServerSearchRequest.Response'
+    if big in POOL['server']:
+        for kind in ('trunc_eof', 'rst', 'fin'):
+            if kind not in TEARDOWNS:
+                continue
+            for n in (2, 4):
+                lst = [{'src': 'server', 'kind': 'valid', 'cls': big, 'var': 3 + i, 'gap': 0.05, 'key': key, 'big': 60000}
+                       for i in range(n)]
+                lst += [{'src': 'server', 'kind': 'valid', 'cls': _A['server'][0], 'var': 1, 'gap': 3.0, 'key': key}]
+                lst += [{'src': 'dist', 'kind': 'valid', 'cls': 'DistributedChildDepth.Request', 'var': 1, 'gap': 1.5, 'key': key}]
+                out.append(dict(_plan(lst, teardown={'src': 'dist', 'kind': kind, 'after': 1, 'cut': 3, 'lag': 0.0,
+                                                      'cls': 'DistributedChildDepth.Request', 'var': 2, 'key': key}),
+                                child_stall=True))
     # 8. a well-formed first frame in two parts with a pause between them
     for port in ('clear', 'obf'):
         for cut in (0, 3, 9):
@@ -922,7 +947,12 @@ def _run(world: World, plan):
         tap.watch(lk['sim'], 'c2s', name)
         init = M.PeerInit.Request(name, typ, 1).serialize()
         link_write(lk, wire(init, port_obf, key_hex), [(len(wire(init, port_obf, key_hex)), {'label': 'init', 'msg': None})])
-        peer.spawn(drain(link))
+        if name == 'dist' and plan.get('child_stall'):
+            # the distributed child never reads: whatever the client relays to it piles up in the send path
+            fired['child_never_reads'] += 1
+            link.writer.transport.pause_reading()
+        else:
+            peer.spawn(drain(link))
 
     def make_wire(lk, rec):
         frame, msg, label = make_frame(rec, lk['family'])
@@ -1285,6 +1315,12 @@ def _run(world: World, plan):
             closer_seen = True
         if closer_seen and close_reason(conn) != 'REQUESTED':
             closer_seen = False     # ended by the injected fault (EOF / READ_ERROR / TIMEOUT), not by a handler's decision
+        if name == 'dist' and plan.get('child_stall') and t_closing is not None and lk['torn'] is None \
+                and close_reason(conn) in ('TIMEOUT', 'WRITE_ERROR'):
+            # the child that never reads: a relayed request could not be written within the write timeout and the
+            # client gave the connection up (its own decision, not a consequence of parsing)
+            closer_seen = True
+            world.probe('stalled_child_given_up_after_write_timeout')
         torn = lk['torn'] is not None
         delivered_all = bool(full) and full[-1] == len(frames)
         sig.append((name, tuple(f['label'] for f in frames), m, lk['torn'], lk['state_at_probe'],
